@@ -133,12 +133,18 @@ func VerifC15Process() {
 			vrt.Reach("c15/manager-failed")
 			// no reply, or a reply that does not claim success
 			for _, rp := range replies[nr:] {
+				var end message.AbstractBranchEndResponse
 				switch m := rp.msg.(type) {
 				case message.BranchCommitResponse:
-					vrt.Assert(m.ResultCode != message.ResultCodeSuccess, "c15/failure-never-reported-as-success")
+					end = m.AbstractBranchEndResponse
 				case message.BranchRollbackResponse:
-					vrt.Assert(m.ResultCode != message.ResultCodeSuccess, "c15/failure-never-reported-as-success")
+					end = m.AbstractBranchEndResponse
+				default:
+					continue
 				}
+				vrt.Assert(end.ResultCode != message.ResultCodeSuccess, "c15/failure-never-reported-with-success-code")
+				vrt.Assert(end.BranchStatus != branch.BranchStatusPhasetwoCommitted && end.BranchStatus != branch.BranchStatusPhasetwoRollbacked,
+					"c15/failure-never-reported-with-success-status")
 			}
 			continue
 		}
